@@ -307,3 +307,65 @@ func Harness_C08_ladder() {
 	zzverif.Observe("ladder", len(commits))
 	zzverif.Reach("end")
 }
+
+// zz8CountStore counts object reads.
+type zz8CountStore struct {
+	*zzrepo.ObjStore
+	reads int
+}
+
+func (s *zz8CountStore) Get(k []byte) ([]byte, error) {
+	s.reads++
+	return s.ObjStore.Get(k)
+}
+
+// The same ladder history, now on the side of the HAVES: the other side reports the
+// top of the ladder (and optionally one more rung), the want is one new commit on top.
+// Finding the common commits and remembering their ancestors has to stay polynomial:
+// the number of object reads of the whole Process call is bounded by 4*n^2.
+func Harness_C08_ladder_haves() {
+	n := zzverif.Param("n", 12)
+	db := &zz8CountStore{ObjStore: zzrepo.NewObjStore()}
+	sums := make([][]byte, n+1)
+	for i := 0; i <= n; i++ {
+		table := bytes.Repeat([]byte{byte(0x40 + i)}, 16)
+		c := &objects.Commit{Table: table, AuthorName: "a", AuthorEmail: "e", Message: fmt.Sprintf("c%d", i), Time: time.Unix(int64(1000000000+i), 0)}
+		if i == n {
+			c.Parents = append(c.Parents, sums[n-1])
+		} else {
+			for j := 0; j < i; j++ {
+				c.Parents = append(c.Parents, sums[j])
+			}
+		}
+		buf := bytes.NewBuffer(nil)
+		c.WriteTo(buf)
+		sum, err := objects.SaveCommit(db, buf.Bytes())
+		if err != nil {
+			panic(err)
+		}
+		sums[i] = sum
+		db.M["tbl/"+string(table)] = []byte{1}
+	}
+	rs := zzrepo.NewRefStore()
+	rs.Refs["heads/main"] = sums[n]
+	haves := [][]byte{sums[n-1]}
+	if zzverif.Bool("secondHave") {
+		k := zzverif.Choose("secondHaveRung", n-1)
+		if zzverif.Bool("secondHaveFirst") {
+			haves = [][]byte{sums[k], sums[n-1]}
+		} else {
+			haves = append(haves, sums[k])
+		}
+	}
+	f := NewClosedSetsFinder(db, rs, 0)
+	db.reads = 0
+	acks, err := f.Process([][]byte{sums[n]}, haves, true)
+	zzverif.Assert("ladder-haves-accepted", err == nil)
+	zzverif.Assert("ladder-haves-top-acknowledged", len(acks) >= 1)
+	commits, err := f.CommitsToSend()
+	zzverif.Assert("ladder-haves-commits-no-error", err == nil)
+	zzverif.Assert("ladder-haves-only-the-new-commit-is-sent", len(commits) == 1 && bytes.Equal(commits[0].Sum, sums[n]))
+	zzverif.Observe("reads", db.reads)
+	zzverif.Assert("object-reads-polynomial-in-history-size", db.reads <= 4*n*n)
+	zzverif.Reach("end")
+}
